@@ -231,6 +231,7 @@ func init() {
 		Build: func(c *Ctx) []*an.Oblig {
 			cooldownProtocol(c)
 			cleanerAlwaysConsulted(c)
+			cleanupLogic(c) // what a pass removes, and that a pass which reports a change has made progress
 			out := c.sel(func(o *an.Oblig) bool {
 				if isUndecided(o) || o.Rule == "ANCHOR" {
 					return true
